@@ -60,8 +60,10 @@ class Ctx:
         abstention when it matched fewer instances than were counted by hand on the pinned tree."""
         self.analysed[what] = count
         if count == 0 and minimum > 0:
-            self.obs.append(Ob(self.rule, "anchor-missing:%s" % what, "-", VIOLATED,
-                               "anchor missing: found no %s, expected at least %d (the rule would pass vacuously)"
+            # the rule found nothing to judge: it must not pass vacuously, and it has no construct to point at either: an abstention
+            # that is always printed (a representation change - newtypes around the slots, the engine behind a trait - lands here)
+            self.obs.append(Ob(self.rule, "anchor-missing:%s" % what, "-", UNCLASSIFIED,
+                               "anchor missing: found no %s, expected at least %d: this rule decides nothing on this tree"
                                % (what, minimum)))
         elif count < minimum:
             # some instances are gone (merged into a helper, rewritten in an idiom the rule does not read): the rule still
